@@ -41,7 +41,9 @@ def reference(stream):
     data = []
     for line in lines:
         if line == "":
-            if data:
+            # data lines joined by newlines, empty ones included ('data:' + 'data: b' is "\nb"); an event whose joined data is
+            # the empty string is not dispatched (the statement leaves this case open; the library's rule is kept, Appendix B)
+            if "\n".join(data) != "":
                 events.append({"id": leid, "name": name, "data": "\n".join(data)})
             name, data = "", []
             continue
@@ -82,6 +84,10 @@ def gen_stream(g, eol_mode):
         for k in range(g.randint(0, 3)):
             sep = g.choice(["data: ", "data:"])
             lines.append((sep + g.choice(words), eol()))
+        if g.random() < 0.25:      # empty data lines, leading / in the middle / trailing / alone ('data' without colon is one too)
+            nd = sum(1 for t, _e in lines[::-1][:3] if t.startswith("data"))
+            for _ in range(g.randint(1, 2)):
+                lines.insert(len(lines) - g.randint(0, min(nd, 3)), (g.choice(["data:", "data: ", "data"]), eol()))
         if g.random() < 0.1:
             lines.append(("unknown: field", eol()))
         lines.append(("", eol()))
@@ -101,9 +107,9 @@ class C33(Check):
     components = {"real": ["ioflo.aio.http.httping.EventSource / parseLine", "ioflo.aio.http.clienting.Patron / Respondent",
                            "ioflo.aio.tcp.clienting.Client"],
                   "stub": ["socket module", "scripted streaming server"]}
-    assumptions = ["streams end with a blank line (no pending event at EOF) and contain no empty data values and no BOM, "
-                   "where the statement does not determine the result"]
-    required_probes = ["mixed", "cr-only", "cut-after-cr", "chunked", "every-byte", "retry", "multi-line-data"]
+    assumptions = ["streams end with a blank line (no pending event at EOF) and contain no BOM, where the statement does not determine the result",
+                   "an event whose data lines join to the empty string is not dispatched (the library's rule; the statement is silent)"]
+    required_probes = ["mixed", "cr-only", "cut-after-cr", "chunked", "every-byte", "retry", "multi-line-data", "empty-data-line"]
     quick_runs = 12000
     thorough_runs = 600000
     shrink_fields = ["cuts", "lines"]
@@ -151,6 +157,8 @@ class C33(Check):
             out.probe("cr-only")
         if any(t.startswith("retry") for t, e in plan["lines"]):
             out.probe("retry")
+        if any(t in ("data", "data:", "data: ") for t, e in plan["lines"]):
+            out.probe("empty-data-line")
         for i in range(len(plan["lines"]) - 1):
             if plan["lines"][i][0].startswith("data") and plan["lines"][i + 1][0].startswith("data"):
                 out.probe("multi-line-data")
